@@ -7,6 +7,20 @@ import Mps.SrcPins.SrcCmpPresign
 namespace Mps.Src.SrcCmpPresign
 set_option maxRecDepth 65536
 
+theorem gen_f_abort1 : MpsGen.SrcCmpPresign.f_abort1 = Mps.SrcPins.SrcCmpPresign.f_abort1 := by decide
+theorem gen_f_abort2 : MpsGen.SrcCmpPresign.f_abort2 = Mps.SrcPins.SrcCmpPresign.f_abort2 := by decide
+theorem gen_f_presign1 : MpsGen.SrcCmpPresign.f_presign1 = Mps.SrcPins.SrcCmpPresign.f_presign1 := by decide
+theorem gen_f_presign2 : MpsGen.SrcCmpPresign.f_presign2 = Mps.SrcPins.SrcCmpPresign.f_presign2 := by decide
+theorem gen_f_presign3 : MpsGen.SrcCmpPresign.f_presign3 = Mps.SrcPins.SrcCmpPresign.f_presign3 := by decide
+theorem gen_f_presign4 : MpsGen.SrcCmpPresign.f_presign4 = Mps.SrcPins.SrcCmpPresign.f_presign4 := by decide
+theorem gen_f_presign5 : MpsGen.SrcCmpPresign.f_presign5 = Mps.SrcPins.SrcCmpPresign.f_presign5 := by decide
+theorem gen_f_presign6 : MpsGen.SrcCmpPresign.f_presign6 = Mps.SrcPins.SrcCmpPresign.f_presign6 := by decide
+theorem gen_f_presign7 : MpsGen.SrcCmpPresign.f_presign7 = Mps.SrcPins.SrcCmpPresign.f_presign7 := by decide
+theorem gen_f_sign : MpsGen.SrcCmpPresign.f_sign = Mps.SrcPins.SrcCmpPresign.f_sign := by decide
+theorem gen_f_sign1 : MpsGen.SrcCmpPresign.f_sign1 = Mps.SrcPins.SrcCmpPresign.f_sign1 := by decide
+theorem gen_f_sign2 : MpsGen.SrcCmpPresign.f_sign2 = Mps.SrcPins.SrcCmpPresign.f_sign2 := by decide
+theorem gen_files : MpsGen.SrcCmpPresign.files = Mps.SrcPins.SrcCmpPresign.files := by decide
+
 theorem gen_source :
     MpsGen.SrcCmpPresign.f_abort1 = Mps.SrcPins.SrcCmpPresign.f_abort1 ∧
     MpsGen.SrcCmpPresign.f_abort2 = Mps.SrcPins.SrcCmpPresign.f_abort2 ∧
@@ -20,7 +34,7 @@ theorem gen_source :
     MpsGen.SrcCmpPresign.f_sign = Mps.SrcPins.SrcCmpPresign.f_sign ∧
     MpsGen.SrcCmpPresign.f_sign1 = Mps.SrcPins.SrcCmpPresign.f_sign1 ∧
     MpsGen.SrcCmpPresign.f_sign2 = Mps.SrcPins.SrcCmpPresign.f_sign2 ∧
-    MpsGen.SrcCmpPresign.files = Mps.SrcPins.SrcCmpPresign.files := by
-  refine ⟨by decide, by decide, by decide, by decide, by decide, by decide, by decide, by decide, by decide, by decide, by decide, by decide, by decide⟩
+    MpsGen.SrcCmpPresign.files = Mps.SrcPins.SrcCmpPresign.files :=
+  ⟨gen_f_abort1, gen_f_abort2, gen_f_presign1, gen_f_presign2, gen_f_presign3, gen_f_presign4, gen_f_presign5, gen_f_presign6, gen_f_presign7, gen_f_sign, gen_f_sign1, gen_f_sign2, gen_files⟩
 
 end Mps.Src.SrcCmpPresign
